@@ -103,7 +103,8 @@ type Exec struct {
 	Steps     int
 	Labels    []string // labels actually taken
 	SpinK     int
-	free      bool // teardown: hooks no longer park
+	LogSteps  bool  // log every controller step as a "step" event (X-level trace validation)
+	free      bool  // teardown: hooks no longer park
 	root      int64 // goroutine id of the controller: it never parks
 	Notes     []string
 }
@@ -488,6 +489,9 @@ func (x *Exec) SchedDone() bool { return !x.Diverged && x.schedPos >= len(x.Sche
 func (x *Exec) Step(m Move) {
 	x.Steps++
 	x.Labels = append(x.Labels, m.Label)
+	if x.LogSteps {
+		x.Log(trace.E{"ev": "step", "label": m.Label})
+	}
 	m.Do()
 	x.lastActor = m.Actor
 	synctest.Wait()
